@@ -210,7 +210,13 @@ func (s *sharedEntryAttributes) toXmlInternal(parent *etree.Element, onlyNewOrUp
 		// check if the element remains to exist
 		if s.shouldDelete() {
 			// if not, add the remove / delete op
-			utils.AddXMLOperation(parent.CreateElement(s.pathElemName), utils.XMLOperationDelete, operationWithNamespace, useOperationRemove)
+			delElem := parent.CreateElement(s.pathElemName)
+			// below the root level the element to delete carries the namespace of its schema node where that
+			// differs from the parent's, like the elements that are written
+			if s.parent != nil && !s.parent.IsRoot() {
+				xmlAddNamespaceConditional(s, s.parent, delElem, honorNamespace)
+			}
+			utils.AddXMLOperation(delElem, utils.XMLOperationDelete, operationWithNamespace, useOperationRemove)
 			// see case nil for an explanation of this, it is basically the same
 			if s.parent.GetSchema() == nil {
 				xmlAddKeyElements(s.parent, parent)
